@@ -147,6 +147,8 @@ def run(rep, tier, seed):
         leaf = from_lit(r["leaf"])
         key = {"clause": m["clause"], "op": e["op"], "fn": leaf["fn"], "outcome": e["outcome"]}
         rep.reject(key, {"recipe": r, "event": e})
+    from harness import repotrace
+    repotrace.judge(rep, "filter", "Trace_Cond", blank)
     for e in events[:400:133]:
         rep.sample({"op": e["op"], "src": recipes[e["id"]], "outcome": e["outcome"], "result": e["result"]})
     rep.rule = ("leg A: TLA+-enumerated leaf x item universe; leg B: every small leaf (class x callable x argument pool) "
